@@ -230,7 +230,8 @@ func deepCastRecursive(val Value, typ ast.Type, span errors.Span, allowCasts boo
 
 			outputFields := make(map[string]*Value)
 
-			for key, field := range objVal.FieldsInternal {
+			for _, key := range sortedFieldNames(objVal.FieldsInternal) {
+				field := objVal.FieldsInternal[key]
 				found := false
 				for _, otherField := range objType.ObjFields {
 					if key == otherField.FieldName.Ident() {
